@@ -752,6 +752,17 @@ var modules = map[string]*moduleSpec{
 		imports:  "lib.Prelude lib.GoSdk GeneratedFns GeneratedStreamTypes model.StreamStoreWorld",
 		typesMod: "", keeperMod: "GeneratedStreamKeeperOnStore", listName: "stream_keeper_onstore_other_functions",
 		msgTypes: []string{"MsgCreateStream", "MsgClaimStream", "MsgTopUpDeposit", "MsgUpdateFlowRate", "MsgCancelStream"}},
+	"enterpriseonstore": {name: "enterprise", pbFiles: []string{"enterprise.pb.go", "tx.pb.go", "genesis.pb.go", "query.pb.go"}, goFiles: []string{"locked.go", "blocker.go", "purchase.go", "whitelist.go", "msg_server.go"},
+		want: []string{"sendCoinsFromModuleToAccount", "incrementSpentEFUND", "incrementLockedUnd", "decrementLockedUnd", "MintCoinsAndLock", "UnlockCoinsForFees",
+			"ProcessAcceptedPurchaseOrders", "TallyPurchaseOrderDecisions",
+			"RaiseNewPurchaseOrder", "IsAuthorisedToDecide", "ProcessPurchaseOrderDecision", "ProcessWhitelistAction",
+			"UndPurchaseOrder", "ProcessUndPurchaseOrder", "WhitelistAddress", "UpdateParams"},
+		typeFuncs: [][2]string{{"purchase_order_status.go", "ValidPurchaseOrderStatus"}, {"purchase_order_status.go", "ValidPurchaseOrderAcceptRejectStatus"}, {"whitelist_action.go", "ValidWhitelistAction"},
+			{"params.go", "validateDenom"}, {"params.go", "validateMinAccepts"}, {"params.go", "validateDecisionLimit"}, {"params.go", "validateEntSigners"}, {"params.go", "Params.Validate"}},
+		msgTypes: []string{"MsgUndPurchaseOrder", "MsgProcessUndPurchaseOrder", "MsgWhitelistAddress"},
+		prims:    onStorePrims(enterprisePrims), consts: map[string]constDef{"types.ModuleName": {"MOD_enterprise", tModName}, "k.authority": {"KEEPER_authority", tAddrStr}}, world: "esworld",
+		imports:  "lib.Prelude lib.GoSdk GeneratedEnterpriseTypes model.EnterpriseStoreWorld",
+		typesMod: "", keeperMod: "GeneratedEnterpriseKeeperOnStore", listName: "enterprise_keeper_onstore_other_functions"},
 	"wrkchainonstore": {name: "wrkchain", pbFiles: []string{"wrkchain.pb.go", "tx.pb.go", "genesis.pb.go", "query.pb.go"}, typeFuncs: [][2]string{{"params.go", "validateFeeDenom"}, {"params.go", "validateFeeRegister"}, {"params.go", "validateFeeRecord"}, {"params.go", "validateFeePurchaseStorage"}, {"params.go", "validateDefaultStorageLimit"}, {"params.go", "validateMaxStorageLimit"}, {"params.go", "Params.Validate"}}, goFiles: []string{"register.go", "record.go", "msg_server.go"},
 		want: []string{"QuickCheckHeightIsNew", "GetMaxPurchasableSlots", "IncreaseInStateStorage", "RegisterNewWrkChain", "RecordNewWrkchainHashes",
 			"RegisterWrkChain", "RecordWrkChainBlock", "PurchaseWrkChainStateStorage", "UpdateParams"},
